@@ -94,6 +94,8 @@ pub struct Ctx {
     pub known: Vec<KnownFinding>,
     pub start: Instant,
     pub strict: bool,
+    /// Upper bound on shrink iterations (lower it for expensive properties).
+    pub shrink_iters: std::sync::atomic::AtomicU32,
 }
 
 impl Ctx {
@@ -107,7 +109,7 @@ impl Ctx {
             }),
             Err(_) => Vec::new(),
         };
-        Ctx { id: id.into(), tier, seed, known, start: Instant::now(), strict: false }
+        Ctx { id: id.into(), tier, seed, known, start: Instant::now(), strict: false, shrink_iters: std::sync::atomic::AtomicU32::new(4096) }
     }
 
     /// Is `key` a listed, unfixed finding of this property?
@@ -290,10 +292,19 @@ where
     S: Strategy<Value = T>,
     F: Fn(&T, &mut CaseInfo) -> Verdict,
 {
+    run_prop_salted(ctx, rep, sub, sub, cases, strategy, prop)
+}
+
+pub fn run_prop_salted<T, S, F>(ctx: &Ctx, rep: &mut Report, sub: &str, salt: &str, cases: u32, strategy: S, prop: F)
+where
+    T: Serialize + Debug + Clone,
+    S: Strategy<Value = T>,
+    F: Fn(&T, &mut CaseInfo) -> Verdict,
+{
     if rep.violated() {
         return;
     }
-    let seed = ctx.seed_for(sub);
+    let seed = ctx.seed_for(salt);
     let mut seed_bytes = [0u8; 32];
     for (i, chunk) in seed_bytes.chunks_mut(8).enumerate() {
         chunk.copy_from_slice(&(seed.wrapping_mul(0x9E37_79B9_7F4A_7C15).wrapping_add(i as u64)).to_le_bytes());
@@ -302,7 +313,7 @@ where
         cases,
         failure_persistence: None,
         rng_seed: RngSeed::Fixed(seed),
-        max_shrink_iters: 4096,
+        max_shrink_iters: ctx.shrink_iters.load(Ordering::Relaxed),
         max_global_rejects: 65536,
         ..Config::default()
     };
@@ -399,6 +410,70 @@ fn count_case<T: Serialize + Debug>(rep: &mut Report, value: &T, info: &CaseInfo
     }
     for c in &info.classes {
         *rep.classes.entry(c.clone()).or_default() += 1;
+    }
+}
+
+impl Report {
+    /// Merges the counters of a worker report into this one.
+    pub fn merge(&mut self, other: Report) {
+        self.evaluations += other.evaluations;
+        self.distinct.extend(other.distinct);
+        self.distinct_nontrivial.extend(other.distinct_nontrivial);
+        for (k, v) in other.classes {
+            *self.classes.entry(k).or_default() += v;
+        }
+        for (k, v) in other.dropped {
+            *self.dropped.entry(k).or_default() += v;
+        }
+        for (k, v) in other.excluded_known {
+            *self.excluded_known.entry(k).or_default() += v;
+        }
+        for (k, v) in other.known_hits {
+            *self.known_hits.entry(k).or_default() += v;
+        }
+        for s in other.samples {
+            if self.samples.len() < 5 {
+                self.samples.push(s);
+            }
+        }
+        self.violations.extend(other.violations);
+        for (k, v) in other.extra {
+            self.extra.insert(k, v);
+        }
+        self.printed_known.extend(other.printed_known);
+    }
+}
+
+/// Like `run_prop` but splits `cases` over `workers` threads (each with its own derived seed).
+/// The property function must be thread-safe and use only per-case scratch state.
+pub fn run_prop_par<T, S, F>(ctx: &Ctx, rep: &mut Report, sub: &str, cases: u32, workers: usize, strategy: impl Fn() -> S + Sync, prop: F)
+where
+    T: Serialize + Debug + Clone,
+    S: Strategy<Value = T>,
+    F: Fn(&T, &mut CaseInfo) -> Verdict + Sync,
+{
+    if rep.violated() {
+        return;
+    }
+    let workers = workers.max(1);
+    let per = cases.div_ceil(workers as u32);
+    let reports: Vec<Report> = std::thread::scope(|scope| {
+        let handles: Vec<_> = (0..workers)
+            .map(|w| {
+                let strategy = &strategy;
+                let prop = &prop;
+                scope.spawn(move || {
+                    let mut r = Report::new();
+                    // the replay tag must be the plain sub-check name, the seed salt differs per worker
+                    run_prop_salted(ctx, &mut r, sub, &format!("{}#{}", sub, w), per, strategy(), prop);
+                    r
+                })
+            })
+            .collect();
+        handles.into_iter().map(|h| h.join().expect("worker panicked")).collect()
+    });
+    for r in reports {
+        rep.merge(r);
     }
 }
 
